@@ -861,7 +861,7 @@ class Area:
         elif self.state == AreaState.GRID:
             if self.inverted:
                 return 0
-            per_row = math.ceil(self.get_height() / (self.block_size_x + self.gap_size_x))
+            per_row = math.ceil(self.get_width() / (self.block_size_x + self.gap_size_x))
             return (tile.x - self.x1) // (self.block_size_x + self.gap_size_x) + \
                 (tile.y - self.y1) // (self.block_size_y + self.gap_size_y) * per_row
 
